@@ -29,7 +29,7 @@ PROFILES = {
     # hostile limits (C02)
     "limits": {
         "ops": {"add": 4, "remove": 4, "aspirate": 3, "dispense": 3, "transfer": 4, "distribute": 2, "evo_aspirate": 1, "evo_dispense": 1, "set_limits": 0.4},
-        "aims": {"ok": 8, "exact": 3, "ulp": 3, "beyond": 3, "huge": 1, "inf": 1, "nan": 0.3, "neg": 0.3, "zero": 1, "cumulative": 2},
+        "aims": {"ok": 8, "exact": 3, "ulp": 3, "beyond": 3, "huge": 1, "inf": 1, "nan": 0.3, "neg": 0.3, "zero": 1, "cumulative": 2, "step_over": 1},
         "fault_rate": 0.55,
         "comps": 0.5,
         "stop_on_error": False,
@@ -38,7 +38,7 @@ PROFILES = {
     # mostly successful, shape-rich (C04)
     "ledger": {
         "ops": {"add": 4, "remove": 4, "aspirate": 3, "dispense": 3, "transfer": 5, "distribute": 2, "evo_aspirate": 1, "evo_dispense": 1},
-        "aims": {"ok": 12, "exact": 1, "beyond": 1, "zero": 1, "cumulative": 1},
+        "aims": {"ok": 12, "exact": 1, "beyond": 1, "zero": 1, "cumulative": 1, "step_over": 0.7},
         "fault_rate": 0.12,
         "comps": 0.3,
         "stop_on_error": False,
@@ -56,7 +56,7 @@ PROFILES = {
     # device-independent operations for the EVO/Fluent lock-step (C16)
     "lockstep": {
         "ops": {"aspirate": 3, "dispense": 3, "transfer": 8, "distribute": 3, "comment": 1, "wash": 1, "flush": 0.5, "commit": 1, "decontaminate": 0.3},
-        "aims": {"ok": 8, "exact": 1, "ulp": 1, "beyond": 3, "huge": 0.5, "inf": 0.3, "zero": 1, "cumulative": 1},
+        "aims": {"ok": 8, "exact": 1, "ulp": 1, "beyond": 3, "huge": 0.5, "inf": 0.3, "zero": 1, "cumulative": 1, "step_over": 1},
         "fault_rate": 0.3,
         "comps": 0.6,
         "stop_on_error": False,
@@ -79,8 +79,8 @@ PROFILES = {
     # history (C11)
     "history": {
         "ops": {"add": 2, "remove": 2, "aspirate": 2, "dispense": 2, "transfer": 8, "distribute": 2, "evo_aspirate": 1, "evo_dispense": 1},
-        "aims": {"ok": 12, "zero": 3, "beyond": 1},
-        "fault_rate": 0.12,
+        "aims": {"ok": 12, "zero": 3, "beyond": 1, "step_over": 2},
+        "fault_rate": 0.15,
         "comps": 0.5,
         "stop_on_error": False,
         "wl_kwargs": 0.0,
@@ -144,6 +144,12 @@ class Engine:
             return math.nextafter(max(room, 0.0), math.inf)
         if kind == "beyond":
             return max(room, 0.0) + rng.choice([0.01, 0.25, 1.0, 1e-6 * max(room, 1.0), 1e-9, 100.0])
+        if kind == "step_over":
+            # more than one pipetting step may carry, although the labware could give / take it
+            if math.isfinite(self.wlmax) and room > self.wlmax + 0.01:
+                self.ctx.count("volume_above_the_step_limit_that_the_labware_could_supply")
+                return min(room, self.wlmax + rng.choice([0.01, 0.25, 1.0, self.wlmax]))
+            return self.aim(room, "beyond")
         if kind == "huge":
             return rng.choice([1e300, 1e18, 7158279.0, 7158279.0, 8e6, 10**20, 2**64, 10**30])  # floats and Python integers beyond 64 bit
         if kind == "inf":
@@ -243,6 +249,8 @@ class Engine:
             room = (d["max_volume"] - cur[idx] - pending.get(idx, 0.0)) if adding else (cur[idx] - d["min_volume"] - pending.get(idx, 0.0))
             if kind in ("aspirate", "dispense") and a == "ok":
                 room = min(room, self.wlmax)
+            if a == "step_over" and kind in ("add", "remove"):
+                a = "ok"  # direct add / remove know no step limit
             v = self.aim(room, a)
             if cumulative and n >= 2 and i in (fault[1], (fault[1] + 1) % n):
                 v = max(room, 0.0) * 0.6 if i == fault[1] else max(d["max_volume"] - cur[idx] if adding else cur[idx] - d["min_volume"], 0.0) * 0.6
